@@ -593,7 +593,7 @@ def run(ctx):
         "plan_wf save_calls otd = true: the write_data_array calls of save_results regenerated from /repo are the "
         "documented ones up to order, the six products go to the root of the output directory (vm_compute, Props/C19.v)",
         "cfg_path_ok otd = true: config.json goes to ./cfg (vm_compute)",
-        "replay_wf classes / input schemas (vm_compute): what the replay theorems need from the regenerated schemas",
+        "classes_wf classes = true (vm_compute): the prologues of the regenerated step classes allow C05's idempotence",
     ]
     ctx.notes.append("observation O3: cost_volume_confidence_run overwrites the (undocumented) `indicator` key of its step with "
                      "the suffix of the step name, so cfg/config.json holds the configuration as run, not check_conf's output "
